@@ -283,6 +283,19 @@ func TestC12(t *testing.T) {
 			if n.K == gen.NBoost && n.Arg && rapid.IntRange(0, 5).Draw(rt, "weirdpow") == 0 {
 				n.ArgS = rapid.SampledFrom(gen.WeirdNumerics).Draw(rt, "wp")
 			}
+			if rapid.IntRange(0, 14).Draw(rt, "longval") == 0 {
+				long := gen.Quoted(strings.Repeat(rapid.SampledFrom([]string{"lorem ipsum ", "x", "é", "a,b ", "\\"}).Draw(rt, "unit"), rapid.IntRange(100, 400).Draw(rt, "rep")))
+				switch {
+				case n.Lo != nil && n.Lo.IsString():
+					n.Lo = long
+				case n.Hi != nil && n.Hi.IsString():
+					n.Hi = long
+				case len(n.Vals) > 0:
+					n.Vals[0] = long
+				case n.V != nil && n.V.IsString():
+					n.V = long
+				}
+			}
 			repl(&n.V)
 			repl(&n.Lo)
 			repl(&n.Hi)
